@@ -81,6 +81,25 @@ class C04(Property):
                     toks.append("E.%s" % rng.choice("12"))
             toks.append("Z.0")
             out.append("pc " + " ".join(toks))
+        # long lives: a dozen complete rotation rounds (each end cycles, every rotation message delivered), payload sealed by both ends
+        # after every step - key ids wrap around the four key slots several times; the seal log is checked for the START of every
+        # key's counter sequence
+        for _ in range(40 if thorough else 6):
+            s1, s2 = rng.sample(range(1, 1 << 31), 2)
+            toks = [pu.obj(1, 1, s1, 1, [1], ALG, "aa"), pu.obj(2, 2, s2, 1, [1], ALG, "bb")]
+            ini = rng.choice([1, 2])
+            oth = 3 - ini
+            toks += ["I.%d" % ini, "D.%d.0" % oth, "D.%d.1" % ini, "D.%d.2" % oth, "D.%d.3" % ini]
+            n = 0
+            for rnd in range(rng.choice([10, 14])):
+                for e in ((1, 2) if rnd % 2 == 0 else (2, 1)):
+                    o = 3 - e
+                    toks += ["C.%d.119" % e, "E.%d" % e, "L.%d.%d.r.0" % (o, e), "L.%d.%d.r.0" % (e, o)]
+                    for x in (1, 2):
+                        n += 1
+                        toks.append("S.%d.0.%04x" % (x, n))
+            toks.append("Z.0")
+            out.append("pc " + " ".join(toks))
         return out
 
     def model_line(self, line, impl_out):
@@ -144,6 +163,28 @@ class C04(Property):
                 if k in last and v <= last[k]:
                     return "counter under key %s did not strictly increase (%x after %x)" % (fp, v, last[k])
                 last[k] = v
+        if t[0] == "pc":
+            # the START of every key's sequence (PeerCrypto lines never force counters): it is a fresh random value - not a small number,
+            # not the same for two keys, and not the continuation of an earlier key's sequence (a key slot is re-used every fourth key)
+            first, lastv, order = {}, {}, []
+            for lg in logs:
+                for e in (lg[1:].split(",") if len(lg) > 1 else []):
+                    fp, nonce = e.split("/")
+                    v = int(nonce[2:], 16)          # without the half marker byte
+                    half = int(nonce[:2], 16) >> 7
+                    k = (fp, half)
+                    if k not in first:
+                        first[k] = v
+                        order.append(k)
+                        for k0 in order[:-1]:
+                            if k0[1] == half and first[k0] == v:
+                                return "two keys (%s, %s) start their counter sequences at the same value %x" % (k0[0], fp, v)
+                            if k0[1] == half and lastv[k0] + 1 == v:
+                                return ("the sequence of key %s starts at %x, exactly where the sequence of the earlier key %s stopped: a rotated-in key "
+                                        "starts a fresh sequence") % (fp, v, k0[0])
+                        if v < (1 << 24):
+                            return "the counter sequence of key %s starts at %x: the start is an unpredictable (random) value" % (fp, v)
+                    lastv[k] = v
         if t[0] == "core":
             # beyond the 56 transmitted bits nothing may open
             ops = t[5:]
